@@ -8,6 +8,7 @@ import (
 	"time"
 
 	jwt "github.com/nats-io/jwt/v2"
+	v1 "github.com/nats-io/jwt/v2/v1compat"
 )
 
 func init() { drivers["C11"] = runC11 }
@@ -378,6 +379,49 @@ func runC11(c *Ctx) {
 			}
 		}
 	}
+	// every segment of a valid token replaced by the base64url text of a JSON literal (a header or payload that is
+	// valid JSON of the wrong shape: null, a number, a string, an array ...), by nothing, and by non-base64 text
+	{
+		lits := []string{"null", " null ", "true", "false", "0", "-1", "1e3", `"s"`, `""`, "[]", "[null]", "{}", `{"typ":null,"alg":null}`,
+			`{"typ":"JWT","alg":"ed25519-nkey"}`, `{"typ":"JWT","alg":"ed25519"}`, `{"typ":1,"alg":[]}`, `[{"typ":"JWT"}]`, `{"nats":null}`, `{"nats":[]}`,
+			`{"nats":{"type":"account","version":2}}`, `{"type":"user"}`, `{"nats":{"type":"authorization_request","version":0}}`}
+		var segs []string
+		for _, l := range lits {
+			segs = append(segs, b64.EncodeToString([]byte(l)))
+		}
+		segs = append(segs, "", "=", "!!", "bnVsbA==", "A")
+		vt := validTokens(kr)
+		var vn []string
+		for k := range vt {
+			vn = append(vn, k)
+		}
+		sortStrings(vn)
+		for _, name := range vn {
+			parts := strings.Split(vt[name], ".")
+			for pos := 0; pos < 3; pos++ {
+				for _, sg := range segs {
+					q := append([]string(nil), parts...)
+					q[pos] = sg
+					tok := strings.Join(q, ".")
+					exerciseToken(tok, kr.by["account"], seedU, report(tok, fmt.Sprintf("%s token, segment %d replaced", name, pos)))
+					exerciseV1Token(tok, kr.by["account"], seedU, report(tok, fmt.Sprintf("%s token, segment %d replaced", name, pos)))
+					c.sum.Evaluations++
+					c.sum.ImplChecks++
+					c.count("segment_literal")
+				}
+			}
+			// all three segments literals at once
+			for _, a := range segs[:8] {
+				for _, b := range segs[:8] {
+					tok := a + "." + b + "." + parts[2]
+					exerciseToken(tok, kr.by["account"], seedU, report(tok, "header and payload literals"))
+					c.sum.Evaluations++
+				}
+			}
+		}
+	}
+	// the bundled version-1 library on version-1 payloads
+	runC11V1(c, g, seedU, replacements, report)
 	// arbitrary byte strings into every parser
 	nb := 3000
 	if c.thorough() {
@@ -424,6 +468,19 @@ func runC11(c *Ctx) {
 		try("FormatUserConfig", func() { jwt.FormatUserConfig(valid["user"], []byte(in)); jwt.FormatUserConfig(in, seedU) })
 		try("ValidateOperatorServiceURL", func() { jwt.ValidateOperatorServiceURL(in) })
 		try("ParseServerVersion", func() { jwt.ParseServerVersion(in) })
+		try("v1compat decoders", func() {
+			v1.DecodeGeneric(in)
+			v1.DecodeAccountClaims(in)
+			v1.DecodeOperatorClaims(in)
+			v1.DecodeUserClaims(in)
+			v1.DecodeActivationClaims(in)
+		})
+		try("v1compat ParseDecoratedJWT", func() { v1.ParseDecoratedJWT([]byte(in)) })
+		try("v1compat ParseDecoratedNKey", func() { v1.ParseDecoratedNKey([]byte(in)) })
+		try("v1compat ParseDecoratedUserNKey", func() { v1.ParseDecoratedUserNKey([]byte(in)) })
+		try("v1compat DecorateSeed", func() { v1.DecorateSeed([]byte(in)) })
+		try("v1compat DecorateJWT", func() { v1.DecorateJWT(in) })
+		try("v1compat FormatUserConfig", func() { v1.FormatUserConfig(valid["user"], []byte(in)); v1.FormatUserConfig(in, seedU) })
 		c.sum.Evaluations++
 		c.sum.ImplChecks++
 		c.count("arbitrary_bytes")
@@ -530,6 +587,6 @@ func runC11(c *Ctx) {
 	}
 	w.flush()
 	c.sum.DistinctNontriv = len(distinct)
-	c.sum.Rule = "every single-node structural mutation (replace by null / number / string / [] / {} / [null] / {k:null} / bool / [{}] / huge float; drop; duplicate incl. a case-folded key) of rich valid payloads of each kind, plus random double mutations, each correctly signed in both layouts, then every decoder and every public operation on what was decoded (validation, printing, queries, signer and revocation queries, export lookup, hash id, mutation helpers, re-encoding) under recover(); arbitrary byte strings (token and credentials fragments, random bytes) into every parser and decorator; the modelled index / dereference / nil-map sites on the same inputs in Coq; non-trivial = distinct (kind, mutation, depth, replacement)"
+	c.sum.Rule = "every single-node structural mutation (replace by null / number / string / [] / {} / [null] / {k:null} / bool / [{}] / huge float; drop; duplicate incl. a case-folded key) of rich valid payloads of each kind, plus random double mutations, each correctly signed in both layouts, then every decoder and every public operation on what was decoded (validation, printing, queries, signer and revocation queries, export lookup, hash id, mutation helpers, re-encoding) under recover(); every segment of valid tokens replaced by the base64url text of JSON literals of the wrong shape (null, numbers, strings, arrays, partial objects), by nothing and by non-base64 text; arbitrary byte strings (token and credentials fragments, random bytes) into every parser and decorator of v2 and of the bundled v1 library; rich version-1 payloads of all seven v1 kinds with every single-node mutation through every v1compat decoder and every public operation on what it decoded; the modelled index / dereference / nil-map sites on the same inputs in Coq; non-trivial = distinct (kind, mutation, depth, replacement)"
 	_ = reflect.TypeOf
 }
